@@ -100,7 +100,18 @@ def main():
         w = gen_trace(rng, vs, N, S)
         fac = rng.choice(["StlDiscreteTimeSpecification", "StlDiscreteTimeOnlineSpecification"])
         evs = [ev_parse()] + [ev_update(t, sample_at(w, t), flt=rng.random() < 0.5) for t in range(N)]
-        cases.append(case([dt_obj(phi, S, vs, factory=fac)], evs))
+        o = dt_obj(phi, S, vs, factory=fac)
+        if rng.random() < 0.15:
+            # the same monitor written with named sub-specifications (each is an assertion of its own *and* is referred to by a
+            # later one: one more way in which a sub-formula occurs more than once; seeds C02-c, C02-f)
+            from modular import decompose
+            subs, main_, _cd, _named = decompose(rng, phi, S, consts=False)
+            if subs:
+                if rng.random() < 0.5:
+                    o["subs"] = [s_ + ";" for s_ in subs]; o["text"] = "out = " + main_
+                else:
+                    o["text"] = " ; ".join(subs + ["out = " + main_])
+        cases.append(case([o], evs))
     traces = runner.run_cases(cases)
     vs_, gen, dist = core.validate("C02", traces)
     rep.add_traces(traces, vs_, gen, dist, nontrivial_key=lambda c: c["objs"][0]["text"] + str([e.get("s") for e in c["events"]]))
